@@ -21,7 +21,7 @@ ASSUMPTIONS = [
 ]
 OUTSIDE = ["libhdf5 itself", "parameter arrays larger than the tiny shapes used (the code is shape-agnostic)"]
 RULE = "holder sizes and chain-file orders are enumerated; every stored parameter value is symbolic."
-BUDGET_S = {"quick": 240, "thorough": 1500}
+BUDGET_S = {"quick": 600, "thorough": 3000}
 
 
 def configs(tier, seed):
